@@ -175,6 +175,14 @@ func c02Program(r *vfRand, e *c02Env, n int, bigReads bool) ([]vfPkt, int) {
 		default:
 			p.Type, p.Ext, p.ExtData = rfExtended, "unknown-"+fmt.Sprint(r.Intn(100))+"@example.com", r.Bytes(r.Intn(30))
 		}
+		// attribute blocks with extended pairs of every size, down to empty strings (well-formed requests all of them)
+		if (p.Type == rfSetstat || p.Type == rfFsetstat || p.Type == rfMkdir || p.Type == rfOpen) && r.Intn(3) == 0 {
+			p.Attrs.Flags |= rfAttrExt
+			p.Attrs.Ext = nil
+			for k := r.Intn(4); k >= 0; k-- {
+				p.Attrs.Ext = append(p.Attrs.Ext, vfPick(r, [][2]string{{"a", "b"}, {"", ""}, {"k", ""}, {"", "v"}, {"user.comment@example.com", "a longer value than the others"}}))
+			}
+		}
 		out = append(out, p)
 		// the same request again, back to back, under fresh ids: each is a request of its own
 		// (a reply object shared between identical requests would show as a repeated or missing id)
@@ -323,6 +331,11 @@ func c02Run(u *vfUnit) {
 		<-sent
 		// the oracle on the response stream
 		resp := all[min(base, len(all)):]
+		if len(resp) < len(prog) && w == vfDone {
+			// the response stream ended (the server hung up) before every request was answered: all requests of a
+			// program are well-formed, so the first unanswered one was dropped
+			u.Violation("missing-response:"+kind.String(), fmt.Sprintf("%s: %d requests pipelined, the server ended the session after %d responses; first unanswered: %s", label, len(prog), len(resp), prog[len(resp)]), witness())
+		}
 		if len(resp) > len(prog) {
 			u.Violation("extra-response:"+kind.String(), fmt.Sprintf("%s: %d responses for %d requests", label, len(resp), len(prog)), witness())
 		}
